@@ -1591,3 +1591,93 @@ fn test_multintt() {
         }
     }
 }
+
+/// Verification accessors for the private Fermat-number type, the fixed-size convolution and the
+/// residue number system (cfg(yamaquasi_verif) only).
+#[cfg(yamaquasi_verif)]
+pub mod vhook {
+    use super::*;
+
+    fn load<const N: usize>(x: &[u64]) -> FInt<N> {
+        let mut z = FInt::<N>::default();
+        z.0.copy_from_slice(&x[..N]);
+        z.1 = x[N];
+        z
+    }
+
+    fn store<const N: usize>(z: &FInt<N>) -> Vec<u64> {
+        let mut v = z.0.to_vec();
+        v.push(z.1);
+        v
+    }
+
+    fn fint_op_n<const N: usize>(op: &str, a: &[u64], b: &[u64], s: u32, k: u32) -> Vec<Vec<u64>> {
+        let mut x = load::<N>(a);
+        let mut y = load::<N>(b);
+        match op {
+            "add" => vec![store(&x.add(&y))],
+            "sub" => vec![store(&x.sub(&y))],
+            "mul" => vec![store(&x.mul(&y))],
+            "shl" => {
+                x.shl(s);
+                vec![store(&x)]
+            }
+            "shr" => {
+                x.shr(s);
+                vec![store(&x)]
+            }
+            "twiddle" => {
+                x.twiddle(s, k);
+                vec![store(&x)]
+            }
+            "butterfly" => {
+                butterfly(&mut x, &mut y);
+                vec![store(&x), store(&y)]
+            }
+            "reduce" => {
+                x.reduce();
+                vec![store(&x)]
+            }
+            _ => panic!("unknown FInt operation"),
+        }
+    }
+
+    /// One operation on integers modulo 2^(64 N) + 1 given as N low words followed by the top word.
+    pub fn fint_op(n: usize, op: &str, a: &[u64], b: &[u64], s: u32, k: u32) -> Vec<Vec<u64>> {
+        match n {
+            16 => fint_op_n::<16>(op, a, b, s, k),
+            32 => fint_op_n::<32>(op, a, b, s, k),
+            64 => fint_op_n::<64>(op, a, b, s, k),
+            128 => fint_op_n::<128>(op, a, b, s, k),
+            256 => fint_op_n::<256>(op, a, b, s, k),
+            _ => panic!("unsupported FInt size"),
+        }
+    }
+
+    /// `_convolve_modn::<N>` with explicit packing parameters.
+    pub fn convolve_modn_raw(
+        n: usize,
+        zn: &ZmodN,
+        size: usize,
+        logpack: u32,
+        stride: usize,
+        p: &[MInt],
+        q: &[MInt],
+        res: &mut [MInt],
+        offset: usize,
+    ) {
+        match n {
+            16 => _convolve_modn::<16>(zn, size, logpack, stride, p, q, res, offset),
+            32 => _convolve_modn::<32>(zn, size, logpack, stride, p, q, res, offset),
+            64 => _convolve_modn::<64>(zn, size, logpack, stride, p, q, res, offset),
+            128 => _convolve_modn::<128>(zn, size, logpack, stride, p, q, res, offset),
+            256 => _convolve_modn::<256>(zn, size, logpack, stride, p, q, res, offset),
+            _ => panic!("unsupported FInt size"),
+        }
+    }
+
+    /// number of NTT primes and transform capacity of a residue number system
+    pub fn mzp_params(m: &MultiZmodP) -> (usize, u32) {
+        (m.w, m.k)
+    }
+}
